@@ -880,7 +880,9 @@ func parseComplexValue[T any](
 		return validateValue(v, internals.Checks, validator, ctx, expectedType)
 	}
 
-	return nil, issues.CreateInvalidTypeError(expectedType, input, ctx)
+	// Carry the schema so that its own message (Object(shape, "..."), Slice(elem, "..."), ...)
+	// is consulted, as parsePrimitiveValue does for the primitive types.
+	return nil, issues.CreateInvalidTypeErrorWithInst(expectedType, input, ctx, internals)
 }
 
 // ----------------------------------------------------------------------------
